@@ -107,7 +107,10 @@ def gen_cases(tier, seed):
             spec.append({"p": "srclink", "k": "l", "target": r.choice(["src", "@ROOT@/src"])})
             classes.add("toplevel-link")
             topdst = r.choice(["absent", "existing-dir", "existing-dir"])
-        yield {"deep": None, "into_dest": into_dest, "topdst": topdst, "top": top, "spec": spec, "driver": driver, "classes": sorted(classes), "bad": bad, "maxchain": maxchain, "fs": "ext4",
+        # the entries of the source directory selected by a pattern instead of the directory being named (a bad link among them is
+        # then a source of its own)
+        globtop = not top and not into_dest and r.random() < 0.2
+        yield {"globtop": globtop, "deep": None, "into_dest": into_dest, "topdst": topdst, "top": top, "spec": spec, "driver": driver, "classes": sorted(classes), "bad": bad, "maxchain": maxchain, "fs": "ext4",
                "args": ["--driver", driver, "-w", str(r.choice([0, 1, 2, 4]))] + r.choice([[], [], ["--fsync"], ["--no-perms"], ["--gitignore"], ["--reflink", "never"], ["--no-progress"], ["--block-size", "4096"], ["-n"], ["--backup", "numbered"], ["--ownership"], ["-v"]])
                        + ["-r", "-L", "src", "dst"]}
 
@@ -218,11 +221,15 @@ def run_case(case):
             if case.get("topdst") == "existing-dir":
                 os.mkdir(os.path.join(b(root), b"dst"))
                 dstroot = "dst/srclink"     # copied *into* the directory, under the link's own name
+        if case.get("globtop"):
+            os.mkdir(os.path.join(b(root), b"dst"))
+            args = args[:-2] + ["--glob", r"src/*", "dst"]
+            res["counters"]["sources-selected-by-pattern"] = 1
         run = core.run_plain(core.xcp_argv(args), root)
         if run.verdict != "exited":
             res["inconc"].append("run-" + run.verdict)
             return res
-        tag = "driver=%s links=%s args=%s" % (case["driver"], case["classes"], " ".join(case["args"]))
+        tag = "driver=%s links=%s args=%s" % (case["driver"], case["classes"], " ".join(args))
         outcome = "exit0" if run.exit0 else "nonzero"
         if case["bad"]:
             if run.exit0:
